@@ -101,8 +101,8 @@ def step_count(a):
 class C01(Prop):
     pid = "C01"
     module = "TrVerif.Props.C01"
-    streams = [("tmpl", 4), ("closer", 3), ("overlap", 2), ("sparse", 1), ("dense", 1), ("xfer", 1), ("parallel", 1), ("zero", 1)]
-    rule = ("datasets from the streams tmpl/overlap/sparse/dense/xfer/parallel/zero, 4 route requests + 1 alternatives request each; "
+    streams = [("tmpl", 4), ("closer", 3), ("overlap", 2), ("sparse", 1), ("dense", 1), ("xfer", 1), ("parallel", 1), ("zero", 1), ("ties", 2)]
+    rule = ("datasets from the streams tmpl/overlap/sparse/dense/xfer/parallel/zero/ties, 4 route requests + 1 alternatives request each; "
             "a case is non-trivial when the implementation returned a route; distinct = distinct (dataset, answer)")
 
     def requests(self, rng, d):
